@@ -199,6 +199,10 @@ func (res Response) MarshalSize() int {
 
 	if len(res.Body) != 0 {
 		res.Header["Content-Length"] = HeaderValue{strconv.FormatInt(int64(len(res.Body)), 10)}
+	} else {
+		// a length left in the header map by an earlier message with a body
+		// would make the reader take what follows for the body
+		delete(res.Header, "Content-Length")
 	}
 
 	n += res.Header.marshalSize()
@@ -232,6 +236,10 @@ func (res Response) MarshalTo(buf []byte) (int, error) {
 
 	if len(res.Body) != 0 {
 		res.Header["Content-Length"] = HeaderValue{strconv.FormatInt(int64(len(res.Body)), 10)}
+	} else {
+		// a length left in the header map by an earlier message with a body
+		// would make the reader take what follows for the body
+		delete(res.Header, "Content-Length")
 	}
 
 	pos += res.Header.marshalTo(buf[pos:])
